@@ -53,7 +53,9 @@ func roundTrip(x []byte) (sym, det string, m1, m2 *schema.Definitions) {
 	// (ids of BPMN model elements; diagram-interchange elements are not base
 	// elements and ExactId does not address them)
 	ids := map[string]bool{}
-	dec := xml.NewDecoder(strings.NewReader(string(x)))
+	// (taken from the serialised model, i.e. the elements the model actually
+	// holds: unknown elements of the input are not part of the model)
+	dec := xml.NewDecoder(strings.NewReader(string(x2)))
 	for {
 		tok, err := dec.Token()
 		if err != nil {
@@ -61,7 +63,8 @@ func roundTrip(x []byte) (sym, det string, m1, m2 *schema.Definitions) {
 		}
 		if se, ok := tok.(xml.StartElement); ok && se.Name.Space == "http://www.omg.org/spec/BPMN/20100524/MODEL" && se.Name.Local != "definitions" {
 			for _, a := range se.Attr {
-				if a.Name.Local == "id" && a.Name.Space == "" {
+				if a.Name.Local == "id" && a.Name.Space == "" && strings.TrimSpace(a.Value) != "" {
+					// (an empty id attribute is not an identifier)
 					ids[a.Value] = true
 				}
 			}
